@@ -429,12 +429,18 @@ def postProcess (ls : List Str) : List Str :=
   unquote (simplifyNegativeLiterals (backportAllConstants (suppressPosonlyargs
     (suppressAliasPos (suppressKinds ls)))))
 
+/-- The state `flatten_node` starts from: `pseudo_hash.reset()` is a real step of `flatten_ast`; with
+`doReset = false` (the code without that line) the factory is used as it was left. -/
+def startState (doReset : Bool) (s : HashState) : HashState := if doReset then HashState.reset else s
+
+/-- `flatten_ast(tree)` with or without its first line `pseudo_hash.reset()`. -/
+def flattenAstG (doReset : Bool) (cfg : Cfg) (s : HashState) (t : Val) : List Str × HashState :=
+  let r := dumpS [] [] (prep cfg t) (startState doReset s)
+  (postProcess r.1, r.2)
+
 /-- `flatten_ast(tree)`: reset the global factory, dump, post-process.
 Returns the lines and the state the factory is left in. -/
-def flattenAst (cfg : Cfg) (s : HashState) (t : Val) : List Str × HashState :=
-  let _ := s  -- the incoming state is overwritten by `pseudo_hash.reset()`
-  let r := dumpS [] [] (prep cfg t) HashState.reset
-  (postProcess r.1, r.2)
+def flattenAst (cfg : Cfg) (s : HashState) (t : Val) : List Str × HashState := flattenAstG true cfg s t
 
 /-- A sequence of flattenings in one process. -/
 def flattenSeq (cfg : Cfg) : HashState → List Val → List (List Str) × HashState
